@@ -54,7 +54,7 @@ type c18Params struct {
 	Handled int    `json:"handled,omitempty"` // run: 0 no, 1 a handled exception earlier in main, 2 right before the fault
 	Site    int    `json:"site,omitempty"`    // run: 0 mixed call-site forms, k>0 every call site of form k-1
 	NoTrail bool   `json:"no_trailing_eol,omitempty"`
-	Other   int    `json:"other_handlers,omitempty"` // run: 1 = every method on the way (and the main program) has a 拦截 block for ANOTHER exception class
+	Other   int    `json:"other_handlers,omitempty"` // run: 1 = every method on the way (and the main program) has a 拦截 block for ANOTHER exception class; 2 = an imported module 影 exports methods named like the program's own
 	Rune    int    `json:"rune,omitempty"` // wid: the character in front of the offending one
 }
 
@@ -306,6 +306,7 @@ type c18Prog struct {
 	Syn        []c18SynExp // acceptable positions
 	Chain      []c18Loc    // outermost first
 	ImportLine int         // imp: line of the 导入 statement in main
+	Shadow     string      // run, Other == 2: text of module 影
 }
 
 type c18Builder struct {
@@ -613,6 +614,17 @@ func c18Build(p c18Params) (pr c18Prog) {
 	}
 	faultFile := fileOf(D)
 	pr.HasExt = p.Mod > 0
+	if p.Other == 2 {
+		// (imported first: the program's own definitions of the same names come after it)
+		main.add(0, "导入《影》")
+		var sh []string
+		for l := 1; l <= D; l++ {
+			if modOf(l) == "" {
+				sh = append(sh, "如何"+c18Names[l]+"？", "    令影子 = 1", "    令影丑 = 2", "    输出 -5", "")
+			}
+		}
+		pr.Shadow = strings.Join(sh, "\n") + "\n"
+	}
 	if pr.HasExt {
 		main.add(0, "导入《外》")
 	}
@@ -758,7 +770,7 @@ type c18Case struct {
 }
 
 var c18Dir string
-var c18Written [2]string
+var c18Written [3]string
 
 func c18Cleanup() {
 	if c18Dir != "" {
@@ -768,7 +780,7 @@ func c18Cleanup() {
 }
 
 func c18Run(pr c18Prog) (zn.Outcome, error) {
-	if !pr.HasExt {
+	if !pr.HasExt && pr.Shadow == "" {
 		return zn.RunReal(pr.Main, nil), nil
 	}
 	if c18Dir == "" {
@@ -779,13 +791,13 @@ func c18Run(pr c18Prog) (zn.Outcome, error) {
 				return zn.Outcome{}, err
 			}
 		}
-		c18Dir, c18Written = d, [2]string{"\x00", "\x00"}
+		c18Dir, c18Written = d, [3]string{"\x00", "\x00", "\x00"}
 	}
-	for i, src := range []string{pr.Main, pr.Ext} {
+	for i, src := range []string{pr.Main, pr.Ext, pr.Shadow} {
 		if c18Written[i] == src {
 			continue
 		}
-		if err := os.WriteFile(filepath.Join(c18Dir, []string{"主.zn", "外.zn"}[i]), []byte(src), 0o644); err != nil {
+		if err := os.WriteFile(filepath.Join(c18Dir, []string{"主.zn", "外.zn", "影.zn"}[i]), []byte(src), 0o644); err != nil {
 			return zn.Outcome{}, err
 		}
 		c18Written[i] = src
@@ -1145,6 +1157,10 @@ func c18Enumerate(tier string, visit func(p c18Params)) {
 									// every method on the way (and the program) handles ANOTHER exception class
 									if x.d >= 1 && len(cc.ctx) == 0 && site == 0 {
 										visit(c18Params{Mode: "run", Kind: kind, Tmpl: ti, Slot: si, EOL: eol, Depth: x.d, Mod: x.m, Handled: h, Other: 1})
+										// an imported module exports methods named like the program's own methods
+										if h == 0 {
+											visit(c18Params{Mode: "run", Kind: kind, Tmpl: ti, Slot: si, EOL: eol, Depth: x.d, Mod: x.m, Other: 2})
+										}
 									}
 								}
 							}
@@ -1246,7 +1262,7 @@ func init() {
 		Level: "exploration",
 		Rule: "E1 exhaustive over the fault-placement product; programs are generated as text with one fault at a generator-known (module, physical line, column, call chain). " +
 			"Syntax faults {stray ！, invalid character ~ / ～, unterminated string, indentation of 4k+3 / 4k-1 spaces, TAB indent in a space-indented file, unexpected deeper indent} x file {main, imported module 外} x every statement slot (every gap and every admissible indent) of 5 template programs {sequence, 如果/否则, 每当, 遍历+如果, around a method definition} x context before the fault line {none, 3-line string literal, /* */ over 2 and 3 lines, 注：「」 over 2 lines, 1-2 blank lines, // comment, comment ending on the fault's own line, 2-line string literal whose first line ends with a backtick that opens no escape; thorough: more forms, ordered pairs, top-of-file placement} x line end {LF, CRLF, CR} x 10 prefixes before the offending character (ASCII, CJK, full-width punctuation, in-line comment, multi-line literal ending on the line) x last line with / without line end. " +
-			"Runtime faults {1 / 0, undefined name, uncaught 抛出异常, index out of range; loop condition faulting on its second evaluation} x every slot that executes (straight, first loop pass, or inside a finished-later call of a local method) x context (before the fault / top of file) x line end x call depth 0..3 (call sites: declaration, inside 如果, inside 遍历; thorough: 6 uniform forms) x module boundary {none, innermost method in 外, two innermost in 外} x handled exception earlier {no, in main, right before the fault}. " +
+			"Runtime faults {1 / 0, undefined name, uncaught 抛出异常, index out of range; loop condition faulting on its second evaluation} x every slot that executes (straight, first loop pass, or inside a finished-later call of a local method) x context (before the fault / top of file) x line end x call depth 0..3 (call sites: declaration, inside 如果, inside 遍历; thorough: 6 uniform forms) x module boundary {none, innermost method in 外, two innermost in 外} x handled exception earlier {no, in main, right before the fault}; every method on the way handling another exception class; an imported module that exports methods named like the program's own methods. " +
 			"Faults met while 外 is being imported x contexts before the 导入 line. Caret column after every character of the unambiguous-width alphabet. Oracle: positions known to the generator; widths from an embedded East-Asian-width table. Cases are distinct by construction (injective parameters); non-trivial = anything beyond a bare LF depth-0 program without context or prefix.",
 		Assumptions: []string{
 			"the report's order of entries is not fixed by the statement: the chain is accepted outermost-first or innermost-first",
